@@ -36,6 +36,8 @@ func Schema() *abs.Schema {
 	cols["mus"] = abs.Col{Key: bt("uuid"), Val: bt("string"), Min: 0, Max: -1, Mut: true}
 	cols["msu"] = abs.Col{Key: bt("string"), Val: bt("uuid"), Min: 0, Max: -1, Mut: true}
 	cols["msr"] = abs.Col{Key: bt("string"), Val: bt("real"), Min: 0, Max: -1, Mut: true}
+	// a column no case touches: the API checks mark the rows an operation affected
+	cols["mark"] = abs.Col{Key: bt("string"), Min: 1, Max: 1, Mut: true}
 	return &abs.Schema{Name: "ddb", Tables: map[string]abs.Table{"D": {IsRoot: true, Cols: cols}}}
 }
 
